@@ -941,6 +941,7 @@ func checkC17(p *Prog, r *Report) {
 	r.note("fields holding secrets: %v", fl)
 	r.add("R17.1", "secret-fields-found", "", fmt.Sprintf("struct fields that hold a secret: %v", fl), len(fl) >= 3, "the field-based propagation found fewer secret-carrying fields than confirmed by hand (urlPrefix, token, Password)")
 	rulePasswordSends(p, r)
+	ruleSecretQueryEscaped(p, r)
 	rulePromptTestFresh(p, r, "R17.4", map[string]bool{"cisco": true, "asa": true, "ios": true, "linux": true}, 2)
 	// R17.2: the tracing facilities of the libraries that carry the secrets
 	r.rule("R17.2", "The libraries that carry the secrets are never switched to tracing: no call of goexpect.Verbose, VerboseWriter, Tee or DebugCheck (they print or copy everything that is sent to the device, the login and enable passwords included), of httputil.DumpRequest / DumpRequestOut / DumpResponse, or of httptrace.WithClientTrace anywhere in the module's production code. The taint rule R17.1 trusts that library functions do not log by themselves; these options are the way to make them do it.")
